@@ -756,6 +756,13 @@ func (fe *FrameEngine) call(f *ssa.Function, sum *fnSummary, cc *ssa.CallCommon,
 
 // FrameObligations produces the obligations for the given packages.
 // readOnly maps "pkg.Func" / "pkg.(*T).M" to the parameter names that must not be written.
+// freshResults: functions whose returned references must point only into memory allocated by
+// the call itself (never into a parameter, the receiver or package state).
+var frameFreshResults = map[string]bool{}
+
+// FrameListFresh lists the functions of the packages whose results are fresh in the current tree.
+var frameListFresh []string
+
 func (fe *FrameEngine) FrameObligations(pkgNames []string, readOnly map[string][]string, allowSync map[string]bool) ([]*Obligation, []string) {
 	var obls []*Obligation
 	want := map[string]bool{}
@@ -815,6 +822,12 @@ func (fe *FrameEngine) FrameObligations(pkgNames []string, readOnly map[string][
 			mk(unit, key+"/frame:no-shared-library-state", "does not use library-internal shared state (math/rand global source)", ps, false, detail(pSync))
 		}
 		mk(unit, key+"/frame:result-not-global", "returned references do not point into package-level state", ps, sum.res&(pGlobal|pUnknown) == 0, "result provenance: "+sum.res.String())
+		if sum.res != 0 && sum.res&^pFresh == 0 {
+			frameListFresh = append(frameListFresh, key)
+		}
+		if frameFreshResults[key] {
+			mk(unit, key+"/frame:result-fresh", "returned references point only into memory allocated by this call (not into an argument, the receiver or package state)", ps, sum.res&^pFresh == 0, "result provenance: "+sum.res.String())
+		}
 		if ro, ok := readOnly[key]; ok {
 			for _, pname := range ro {
 				idx := -1
